@@ -30,7 +30,7 @@ META = dict(
            "Continuum.get_best_alignment / get_best_soft_alignment / get_fast_alignment / measure_best_window_size = spies returning alignments with fresh symbolic disorders",
            "sampler = stub returning a fresh tagged continuum per access"],
     assumptions=["chance disorders > 0", "observed disorder >= 0", "0 < numeric precision < 1"],
-    cfg_budget_s=dict(quick=240, thorough=1700),
+    cfg_budget_s=dict(quick=240, thorough=900),
 )
 
 
